@@ -52,6 +52,11 @@ class C01(HistoryProperty):
         if cfg["mutating_bodies"]:
             cfg["whole_section"] = cfg["lists"] = True
         spec = gen.prune(gen.gen_spec(rng, cfg))
+        if rng.random() < 0.25:
+            # several datasets defined through ONE configured factory (memo = dataset(cache=MemoryCache); @memo def ...)
+            for n in spec["nodes"]:
+                if n["k"] == "dataset" and n.get("cache", "default") == "default":
+                    n["cache"] = "shared_factory"
         ops = gen_history(rng, cfg, spec)
         if cfg["mutating_bodies"]:
             # ... followed by the dictionary that LOOKS like what such a body leaves behind (had the body been handed the
